@@ -18,8 +18,8 @@ REQUIRED_TAGS = ['delivered', 'suppressed', 'rotated']
 LIMITS = {'quick': {'max_paths': 60000, 'max_s': 150}, 'thorough': {'max_paths': 600000, 'max_s': 900}}
 
 LEVELS = ['debug', 'info', 'warning', 'error', 'off', 'loud', 5]
-LEVELNO = {'debug': 10, 'info': 20, 'warning': 30, 'error': 40, 'off': 99}
-RECLEVELS = ['debug', 'info', 'warning', 'error']
+LEVELNO = {'debug': 10, 'info': 20, 'warning': 30, 'error': 40, 'off': 99, 'critical': 50}
+RECLEVELS = ['debug', 'info', 'warning', 'error', 'critical']      # critical (50): a python level without a SECoP name
 KINDS = ['logging', 'emit', 'idn', 'disconnect']
 
 
@@ -34,6 +34,8 @@ def cases(tier):
                             'params': {'first': [k, k2], 'depth': 3, 'full': True}})
     for n in range(7):
         out.append({'fn': 'run_rotation', 'id': f'rotation/n{n}', 'params': {'n': n}})
+        # foreign entries in the log directory: other files, and the comlog directory frappy itself creates there
+        out.append({'fn': 'run_rotation', 'id': f'rotation-foreign/n{n}', 'params': {'n': n, 'foreign': True}})
     return out
 
 
@@ -42,7 +44,7 @@ def run_routing(env, p):
     full = p.get('full')
     levels = LEVELS if full else ['debug', 'warning', 'off', 'loud']
     targets = ['m1', 'm2', '.'] if full else ['m1', '.']
-    reclevels = RECLEVELS if full else ['debug', 'info', 'error']
+    reclevels = RECLEVELS if full else ['debug', 'info', 'error', 'critical']
     from frappy.core import Module
     K = 'C20/routing'
 
@@ -86,12 +88,20 @@ def run_routing(env, p):
             lv = reclevels[env.choice(f'reclevel{step}', len(reclevels))]
             rec = logging.LogRecord(f'frappy.{m}', LEVELNO[lv], __file__, 1, 'msg %d', (step,), None)
             n0 = [len(c.sent) for c in conns]
-            handler.handle(rec)
+            try:
+                handler.handle(rec)
+            except Exception as e:
+                env.fail(K + '/log-call-raised-into-the-caller/' + type(e).__name__, [m, lv, repr(e)])
+                return
             for i, c in enumerate(conns):
                 new = c.sent[n0[i]:]
                 want = (i, m) in model and LEVELNO[lv] >= model[(i, m)]
                 if want:
                     env.note('delivered')
+                    if lv == 'critical':
+                        env.check(len(new) == 1 and new[0][0] == 'log' and new[0][1].startswith(m + ':') and new[0][2] == f'msg {step}',
+                                  K + '/not-delivered-or-wrong-message', [i, m, lv, new])
+                        continue
                     env.check(new == [('log', f'{m}:{lv}', f'msg {step}')], K + '/not-delivered-or-wrong-message', [i, m, lv, new])
                 else:
                     env.note('suppressed')
@@ -111,7 +121,11 @@ def run_routing(env, p):
         for lv in RECLEVELS:
             rec = logging.LogRecord(f'frappy.{m}', LEVELNO[lv], __file__, 1, 'final', (), None)
             n0 = [len(c.sent) for c in conns]
-            handler.handle(rec)
+            try:
+                handler.handle(rec)
+            except Exception as e:
+                env.fail(K + '/log-call-raised-into-the-caller/' + type(e).__name__, [m, lv, repr(e)])
+                return
             for i, c in enumerate(conns):
                 want = (i, m) in model and LEVELNO[lv] >= model[(i, m)]
                 env.check((len(c.sent) - n0[i] == 1) == want, K + '/final-sweep-differs-from-model', [i, m, lv])
@@ -154,6 +168,13 @@ def run_rotation(env, p):
         for i in range(n):
             with open(os.path.join(logdir, f'root-{days[i]}.log'), 'w') as f:
                 f.write('old\n')
+        foreign = []
+        if p.get('foreign'):
+            for name in ('README.txt', 'zzz.txt'):
+                with open(os.path.join(logdir, name), 'w') as f:
+                    f.write('not a log file\n')
+            os.makedirs(os.path.join(logdir, 'comlog', 'node'))
+            foreign = ['README.txt', 'comlog', 'zzz.txt']
         h = LogfileHandler(d, 'root', max_days=retention)
         h.stream = h._open()
         existing = sorted(f for f in os.listdir(logdir) if f != 'current')
@@ -169,6 +190,9 @@ def run_rotation(env, p):
                 env.fail(K + '/rollover-raises/' + type(e).__name__, repr(e))
                 return
             after = sorted(f for f in os.listdir(logdir) if f != 'current')
+            env.check([f for f in after if f in foreign] == foreign, K + '/foreign-entry-removed', [foreign, after])
+            before = [f for f in before if f not in foreign]
+            after = [f for f in after if f not in foreign]
             current = os.path.basename(h.baseFilename)
             allfiles = sorted(set(before) | {current})
             # the oracle works on the concrete retention of this path
